@@ -16,7 +16,7 @@
    reference semantics (RefSem.v: deliver / deliver_block / deliver_list / loop_test), which
    the correspondence check compares with the implementation and with the net model on every
    run (all completion orders of generated programs, incl. re-entrant ones). *)
-From PFDL Require Import RefSem RunCase Monitors RefShape RefDen RefC01.
+From PFDL Require Import RefSem RunCase Monitors RefShape RefDen RefC01 RefBase RefProgress.
 
 Theorem C02_sync_partial :
   forall orc body fuel (s : sched) b s',
@@ -35,3 +35,156 @@ Theorem C02_all_schedules_no_stall :
     run_script orc imm fuel body sched0 script = Ok tr -> holds_C01 tr = true.
 Proof. exact C01_ref. Qed.
 Print Assumptions C02_all_schedules_no_stall.
+
+(* ==== no lost wake-up: every accepted completion is delivered into the tree (RefProgress.v) ==== *)
+Theorem C02p_start_returns_wellformed_states :
+  forall orc imm f,
+    (forall ctx ie s g st g', start_stmt orc imm f ctx ie s g = Ok (st, g') -> wf s st) /\
+    (forall ctx ie ss i g r g', run_block orc imm f ctx ie ss i g = Ok (r, g') -> wf_opt ss r) /\
+    (forall ctx l g sts g', start_list orc imm f ctx l g = Ok (sts, g') -> wf_list l sts) /\
+    (forall ctx ie s k g st g', loop_test orc imm f ctx ie s k g = Ok (st, g') -> wf s st).
+Proof. exact start_wf. Qed.
+Print Assumptions C02p_start_returns_wellformed_states.
+
+Theorem C02p_deliver_preserves_wellformedness :
+  forall orc imm f,
+    (forall ctx ie s st id g r g',
+        deliver orc imm f ctx ie s st id g = Ok (r, g') -> wf s st -> wf_o s r) /\
+    (forall ctx ie ss i sti id g r g',
+        deliver_block orc imm f ctx ie ss i sti id g = Ok (r, g') -> wf_block ss i sti -> wf_oo ss r) /\
+    (forall ctx l sts id g r g',
+        deliver_list orc imm f ctx l sts id g = Ok (r, g') -> wf_list l sts -> wf_lo l r).
+Proof. exact deliver_wf. Qed.
+Print Assumptions C02p_deliver_preserves_wellformedness.
+
+Theorem C02p_identifier_in_tree_is_found :
+  forall orc imm f,
+    (forall ctx ie s st id g g',
+        wf s st -> In id (svc_ids st) ->
+        deliver orc imm f ctx ie s st id g <> Ok (None, g')) /\
+    (forall ctx ie ss i sti id g g',
+        wf_block ss i sti -> In id (svc_ids sti) ->
+        deliver_block orc imm f ctx ie ss i sti id g <> Ok (None, g')) /\
+    (forall ctx l sts id g g',
+        wf_list l sts -> In id (ids_list sts) ->
+        deliver_list orc imm f ctx l sts id g <> Ok (None, g')).
+Proof. exact deliver_found. Qed.
+Print Assumptions C02p_identifier_in_tree_is_found.
+
+Theorem C02p_identifier_not_in_tree_changes_nothing :
+  forall orc imm f,
+    (forall ctx ie s st id g r g',
+        deliver orc imm f ctx ie s st id g = Ok (r, g') -> ~ In id (svc_ids st) -> r = None /\ g' = g) /\
+    (forall ctx ie ss i sti id g r g',
+        deliver_block orc imm f ctx ie ss i sti id g = Ok (r, g') -> ~ In id (svc_ids sti) -> r = None /\ g' = g) /\
+    (forall ctx l sts id g r g',
+        deliver_list orc imm f ctx l sts id g = Ok (r, g') -> ~ In id (ids_list sts) -> r = None /\ g' = g).
+Proof. exact deliver_absent. Qed.
+Print Assumptions C02p_identifier_not_in_tree_changes_nothing.
+
+Theorem C02p_found_iff_in_tree :
+  forall orc imm f ctx ie ss i sti id g r g',
+    wf_block ss i sti ->
+    deliver_block orc imm f ctx ie ss i sti id g = Ok (r, g') ->
+    (r = None <-> ~ In id (svc_ids sti)).
+Proof. exact deliver_block_found_iff. Qed.
+Print Assumptions C02p_found_iff_in_tree.
+
+Theorem C02p_deliver_awaited_permutation :
+  forall orc imm f,
+    (forall ctx ie s st id g r g',
+        deliver orc imm f ctx ie s st id g = Ok (r, g') ->
+        pres svc_ids g id (svc_ids st) r g') /\
+    (forall ctx ie ss i sti id g r g',
+        deliver_block orc imm f ctx ie ss i sti id g = Ok (r, g') ->
+        pres ids_opt g id (svc_ids sti) r g') /\
+    (forall ctx l sts id g r g',
+        deliver_list orc imm f ctx l sts id g = Ok (r, g') ->
+        pres ids_list g id (ids_list sts) r g').
+Proof. exact deliver_perm. Qed.
+Print Assumptions C02p_deliver_awaited_permutation.
+
+Theorem C02p_api_call_keeps_invariant :
+  forall orc imm body f s c b s',
+    PInv body s -> api_call orc imm f body s c = Ok (b, s') -> PInv body s'.
+Proof. exact api_pinv. Qed.
+Print Assumptions C02p_api_call_keeps_invariant.
+
+Theorem C02p_reachable_state_shape :
+  forall orc imm body s, reach orc imm body s ->
+    (exists cid i sti, sc_root s = Some (RCall cid i sti)
+                       /\ Permutation.Permutation (g_awaited (sc_g s)) (svc_ids sti)
+                       /\ NoDup (svc_ids sti)
+                       /\ wf_block body i sti)
+    \/ (sc_root s = Some RDone /\ g_awaited (sc_g s) = [])
+    \/ (sc_root s = None /\ g_awaited (sc_g s) = []).
+Proof. exact reach_shape. Qed.
+Print Assumptions C02p_reachable_state_shape.
+
+Theorem C02p_accepted_completion_is_delivered :
+  forall orc imm body s id,
+    reach orc imm body s -> mem id (g_awaited (sc_g s)) = true ->
+    exists cid i sti,
+      sc_root s = Some (RCall cid i sti)
+      /\ In id (svc_ids sti)
+      /\ wf_block body i sti
+      /\ forall f g g', deliver_block orc imm f cid [] body i sti id g <> Ok (None, g').
+Proof. exact accepted_completion_is_delivered. Qed.
+Print Assumptions C02p_accepted_completion_is_delivered.
+
+Theorem C02p_finish_failure_is_deep :
+  forall orc imm body f s id,
+    reach orc imm body s -> mem id (g_awaited (sc_g s)) = true ->
+    exists cid i sti aw1,
+      sc_root s = Some (RCall cid i sti)
+      /\ remove_first (Nat.eqb id) (g_awaited (sc_g s)) = Some aw1
+      /\ let g1 := clear_log (sc_g s) <| g_awaited := aw1 |> in
+         match deliver_block orc imm f cid [] body i sti id g1 with
+         | Ok (r, g2) => r <> None /\ exists s', api_call orc imm f body s (AFinish id) = Ok (true, s')
+         | Fuel => api_call orc imm f body s (AFinish id) = Fuel
+         | Exn k => api_call orc imm f body s (AFinish id) = Exn k
+         | Unsupported => api_call orc imm f body s (AFinish id) = Unsupported
+         end.
+Proof. exact finish_failure_is_deep. Qed.
+Print Assumptions C02p_finish_failure_is_deep.
+
+Theorem C02p_finish_unsupported_is_deep :
+  forall orc imm body f s id,
+    reach orc imm body s -> mem id (g_awaited (sc_g s)) = true ->
+    api_call orc imm f body s (AFinish id) = Unsupported ->
+    exists cid i sti g1,
+      sc_root s = Some (RCall cid i sti)
+      /\ deliver_block orc imm f cid [] body i sti id g1 = Unsupported.
+Proof. exact finish_unsupported_is_deep. Qed.
+Print Assumptions C02p_finish_unsupported_is_deep.
+
+Theorem C02p_script_completion_is_delivered :
+  forall orc imm body f pre id post tr,
+    run_script orc imm f body sched0 (pre ++ AFinish id :: post) = Ok tr ->
+    exists s, exec orc imm body f sched0 pre = Ok s /\ reach orc imm body s /\
+      (mem id (g_awaited (sc_g s)) = true ->
+       exists cid i sti,
+         sc_root s = Some (RCall cid i sti)
+         /\ In id (svc_ids sti)
+         /\ wf_block body i sti
+         /\ forall f' g g', deliver_block orc imm f' cid [] body i sti id g <> Ok (None, g')).
+Proof. exact script_completion_is_delivered. Qed.
+Print Assumptions C02p_script_completion_is_delivered.
+
+Theorem C02p_accepted_completion_is_consumed :
+  forall orc imm body f s id s',
+    reach orc imm body s -> api_call orc imm f body s (AFinish id) = Ok (true, s') ->
+    In id (ids_root (sc_root s))
+    /\ ~ In id (ids_root (sc_root s'))
+    /\ (forall x, x <> id -> In x (ids_root (sc_root s)) -> In x (ids_root (sc_root s')))
+    /\ (forall x, In x (ids_root (sc_root s')) -> ~ In x (ids_root (sc_root s)) -> g_sid (sc_g s) <= x).
+Proof. exact accepted_completion_is_consumed. Qed.
+Print Assumptions C02p_accepted_completion_is_consumed.
+
+Theorem C02p_reach_nonvacuous :
+  let body := [XService 1 root_site []] in
+  exists s, reach (fun _ _ => None) (fun _ => false) body s
+            /\ mem 0 (g_awaited (sc_g s)) = true
+            /\ sc_root s = Some (RCall 0 0 (RAwait 0)).
+Proof. exact reach_nonvacuous. Qed.
+Print Assumptions C02p_reach_nonvacuous.
